@@ -140,8 +140,8 @@ func genPath(r *vproto.Rng, style int, rs []shapes.Ring, mn, mx ipt) []ipt {
 		if style == 3 {
 			want = 0
 		}
-		n := r.Range(2, 5)
-		for try := 0; try < 200 && len(path) < n; try++ {
+		n := r.Range(2, 9)
+		for try := 0; try < 300 && len(path) < n; try++ {
 			q := ipt{X: ev(r, mn.X-2*int64(1-want), mx.X+2*int64(1-want)), Y: ev(r, mn.Y-2*int64(1-want), mx.Y+2*int64(1-want))}
 			if shapes.InRings(rs, q) != want {
 				continue
